@@ -32,7 +32,7 @@ def table() -> NotationTable:
     return _TABLE
 
 
-SYMS = ('a', 'b', 'f', 'g', 'inhabitant', '⌈_⌉', 'kore_next')
+SYMS = ('a', 'b', 'fn', 'g', 'inhabitant', '⌈_⌉', 'kore_next')
 
 
 def rand_term(rng: random.Random, depth: int, meta=True, notation=0.35, substs=True, evs=(0, 1, 2), svs=(0, 1, 2),
@@ -134,7 +134,7 @@ def fold(e, rng: random.Random, p=0.7, max_layers=4, _layer=0, stats=None):
     if k == 'sv':
         return P.SVar(e[1])
     if k == 'sy':
-        return P.Symbol(e[1])
+        return P.Symbol(tb.fresh_name(e[1]))
     if k == 'mv':
         return tb.to_repo(e, P)
     if k == 'im':
